@@ -435,6 +435,89 @@ theorem lenfallback_fails_spec :
   revert this
   decide
 
+/-! ### no dependence on previously integrated grids (process state)
+
+  For the MODEL this is true by construction (`runProcess` is a `map`): the theorem below only
+  makes the obligation explicit.  That the CODE has no such state is a correspondence obligation,
+  discharged by the harness's process-state streams (20–40 grids built, integrated and released
+  one after another, equal n_face, different geometry, address re-use counted).  The seeded
+  variant C06e (`runIdCache`: table keyed by the grid's address) has the counterexample
+  `idcache_depends_on_history` and is correct exactly as long as no two different grids share an
+  address (`idcache_partial`). -/
+
+section Process
+variable {K : Type} [CommSemiring K]
+
+/-- **history independence**: whatever was integrated before (any grids, any rules, any data),
+    the result of a call is `integrate` of its own grid, its own areas and its own data. -/
+theorem process_independent (pre : List (Step K)) (s : Step K) (post : List (Step K)) :
+    (runProcess (pre ++ s :: post))[pre.length]? = some (integrate s.g s.areas s.a) := by
+  simp [runProcess]
+
+/-- the id-keyed cache is right as long as calls with the same (address, rule) key carry the same
+    areas — i.e. as long as no address is re-used by a different grid (excluded class: address
+    re-use after garbage collection, see `idcache_depends_on_history`) -/
+theorem idcache_partial (cache : List ((Nat × Nat) × List K)) (steps : List (Step K))
+    (hc : ∀ s ∈ steps, ∀ v, cache.lookup (s.addr, s.rule) = some v → v = s.areas)
+    (hs : ∀ s ∈ steps, ∀ t ∈ steps, (s.addr, s.rule) = (t.addr, t.rule) → s.areas = t.areas) :
+    runIdCache cache steps = runProcess steps := by
+  induction steps generalizing cache with
+  | nil => rfl
+  | cons s ss ih =>
+    have hss : ∀ x ∈ ss, ∀ t ∈ ss, (x.addr, x.rule) = (t.addr, t.rule) → x.areas = t.areas :=
+      fun x hx t ht => hs x (List.mem_cons_of_mem _ hx) t (List.mem_cons_of_mem _ ht)
+    simp only [runIdCache, runProcess, List.map_cons]
+    unfold stepIdCache
+    split
+    · cases hl : cache.lookup (s.addr, s.rule) with
+      | some ar =>
+        have := hc s (by simp) ar hl
+        subst this
+        simp only
+        congr 1
+        exact ih cache (fun x hx v hv => hc x (List.mem_cons_of_mem _ hx) v hv) hss
+      | none =>
+        simp only
+        congr 1
+        apply ih _ _ hss
+        intro x hx v hv
+        rw [List.lookup_cons] at hv
+        by_cases hk : ((x.addr, x.rule) == (s.addr, s.rule)) = true
+        · rw [hk] at hv
+          cases hv
+          exact hs s (by simp) x (List.mem_cons_of_mem _ hx) (beq_iff_eq.mp hk).symm
+        · simp only [Bool.not_eq_true] at hk
+          rw [hk] at hv
+          exact hc x (List.mem_cons_of_mem _ hx) v hv
+    · simp only
+      congr 1
+      exact ih cache (fun x hx v hv => hc x (List.mem_cons_of_mem _ hx) v hv) hss
+
+end Process
+
+/-- two different 2-face grids that live, one after the other, at the same address 100 -/
+def procA : Step Nat :=
+  { addr := 100, rule := 3, g := { nFace := 2, nNode := 4, nEdge := 5, gid := 1 }, areas := [5, 7],
+    a := { dims := [Dim.face], shape := [2], data := [1, 1], name := none, grid := 1 } }
+def procB : Step Nat :=
+  { addr := 100, rule := 3, g := { nFace := 2, nNode := 4, nEdge := 5, gid := 2 }, areas := [1, 2],
+    a := { dims := [Dim.face], shape := [2], data := [1, 1], name := none, grid := 2 } }
+
+/-- **seeded variant C06e**: with a table keyed by the grid's address, ∫1 on the second grid
+    returns the FIRST grid's total area (12 instead of 3): the result depends on the history -/
+theorem idcache_depends_on_history :
+    runIdCache [] [procA, procB] ≠ runProcess [procA, procB] ∧
+    (runIdCache [] [procA, procB])[1]? =
+      some (.ok { dims := [], shape := [], data := [12], name := none, grid := 2 }) ∧
+    (runProcess [procA, procB])[1]? =
+      some (.ok { dims := [], shape := [], data := [3], name := none, grid := 2 }) := by decide
+
+-- non-vacuity of `idcache_partial`: distinct addresses, empty table
+example : runIdCache [] [procA, { procB with addr := 101 }] = runProcess [procA, { procB with addr := 101 }] := by
+  decide
+example : (runProcess ([procA] ++ procB :: []))[[procA].length]? = some (integrate procB.g procB.areas procB.a) :=
+  process_independent [procA] procB []
+
 /-! ### the float tolerance of the specification is a theorem, for ANY order of summation
 
   `Close` (what the driver evaluates on the implementation's float output) allows
